@@ -73,9 +73,9 @@ def strip_meta(cfg):
 
 def recreate_branches(data, skip_keys=None):
     new_data = data
-    if isinstance(data, (Namespace, dict)) and not isinstance(data, OrderedDict):
+    if isinstance(data, (Namespace, dict)):
         new_data = type(data)()
-        for key, val in getattr(data, "__dict__", data).items():
+        for key, val in (vars(data) if isinstance(data, Namespace) else data).items():
             if skip_keys is None or key not in skip_keys:
                 new_data[key] = recreate_branches(val, skip_keys)
     elif isinstance(data, list):
